@@ -32,7 +32,6 @@ func runC17(c *Ctx) {
 	c17Unquote(c)
 	c17QuotedVerbatim(c)
 	c17TokenizerVerbatim(c)
-	c17UnquoteDecoded(c)
 }
 
 // c17Unquote implements C17.unquote-multibyte and C17.unquote-errors.
@@ -851,8 +850,10 @@ func c17TokenizerVerbatim(c *Ctx) {
 // count, or makes the preprocessed file compile to something else.
 func lineVerbatim(c *Ctx, rule, pkg string, names ...string) {
 	c.Rule(rule, "A8 in the named functions and their function literals: a value obtained from (*bufio.Scanner).Bytes/Text is passed to no bytes/strings function that rewrites or re-cuts it by content (TrimSpace, TrimRight, Trim, TrimSuffix, ToLower, Replace…, Fields, Map), except bytes.TrimLeft")
+	visited := map[*ssa.Function]bool{}
 	var walk func(fn *ssa.Function, bad *[]string, seen *int)
 	walk = func(fn *ssa.Function, bad *[]string, seen *int) {
+		visited[fn] = true
 		c.Examined(fn)
 		for _, ci := range callInstrs(fn) {
 			f := calleeOf(ci.Common())
@@ -886,6 +887,13 @@ func lineVerbatim(c *Ctx, rule, pkg string, names ...string) {
 		}
 		for _, cl := range fn.AnonFuncs {
 			walk(cl, bad, seen)
+		}
+		// the reading loop may live in a helper of the same package (called, or started with go)
+		for _, ci := range callInstrs(fn) {
+			if sf := ci.Common().StaticCallee(); sf != nil && sf.Pkg == fn.Pkg && sf.Blocks != nil && !visited[sf] && len(visited) < 40 {
+				visited[sf] = true
+				walk(sf, bad, seen)
+			}
 		}
 	}
 	for _, name := range names {
